@@ -9,6 +9,8 @@ S = {s['id']: s for s in SPECS}
 
 def run(rep, ctx):
     g = ctx.g
+    from .c01 import run_N_writer
+    run_N_writer(rep, g, ['write::op::'])
     run_specs(rep, ctx, 'C15')
     k1_pairing(rep, g, 'K1-op', S['w_op_write'], [S['op_parse']], 'DW_OP_', b1_is_uleb_for=('Convert', 'Reinterpret'))
     rep.rule('S-op', 'size model == emission: per write::Operation variant the set of byte bags Operation::size returns (plus the opcode byte) equals what Operation::write emits')
